@@ -103,6 +103,34 @@ func (t *vC18) pair(a, b []float32) {
 			t.bad("batch-differs-from-scalar", fmt.Sprintf("%s a=%v b=%v batch %v scalar %v", name, a, b, got, want))
 		}
 	}
+	// --- batch over queries that are VIEWS into one backing array (rows of a matrix, the
+	// first one with spare capacity), with a middle entry replaced by a separate slice and
+	// with two middle rows exchanged: entry i of the batch is the distance to queries[i],
+	// wherever that slice lives
+	if d <= 8 || len(a)%7 == 0 {
+		backing := make([]float32, 0, 5*d)
+		for _, r := range [][]float32{a, b, a, b, a} {
+			backing = append(backing, r...)
+		}
+		row := func(i int) []float32 { return backing[i*d : (i+1)*d] }
+		for name, dist := range map[string]Distance{"l2": l2, "l2sq": sq, "cosine": cs} {
+			for vi, qs := range [][][]float32{
+				{row(0), row(1), vCopyVec(b), row(3), row(4)},
+				{row(0), row(1), row(3), row(2), row(4)},
+				{row(0), row(1), row(1), row(1), row(4)},
+				{backing[0:d:d], row(2), row(1)},
+			} {
+				got := dist.CalculateBatch(qs, b)
+				want := make([]float32, len(qs))
+				for i, q := range qs {
+					want[i] = dist.Calculate(q, b)
+				}
+				if !vBitsEq(got, want) {
+					t.bad("batch-differs-from-scalar", fmt.Sprintf("%s queries are views into one array (variant %d) a=%v b=%v batch %v scalar %v", name, vi, a, b, got, want))
+				}
+			}
+		}
+	}
 	// --- preprocessing
 	for _, dist := range []Distance{l2, sq} {
 		ac := vCopyVec(a)
@@ -160,12 +188,25 @@ func (t *vC18) pair(a, b []float32) {
 	if math.Abs(float64(cab)-ref) > tol {
 		t.bad("cosine-value", fmt.Sprintf("a=%v b=%v got %v ref %v", a, b, cab, ref))
 	}
-	for _, s := range []float32{1e-3, 0.5, 2, 1e3} {
+	// positive scalings 2^e over the whole range in which float32 squares neither underflow
+	// nor overflow (non-zero components stay within 2^-60 .. 2^60), and two decimal ones
+	scales := []float32{1e-3, 0.5, 2, 1e3}
+	for _, e := range []int{-60, -50, -44, -40, -30, -20, -10, 10, 20, 30, 40, 44, 50, 60} {
+		scales = append(scales, float32(math.Ldexp(1, e)))
+	}
+	for _, s := range scales {
 		sa := make([]float32, len(a))
+		inRange := true
 		for i := range a {
 			sa[i] = a[i] * s
+			if m := math.Abs(float64(sa[i])); a[i] != 0 && (m < math.Ldexp(1, -60) || m > math.Ldexp(1, 60)) {
+				inRange = false
+			}
 		}
-		if vIsZero(sa) {
+		if n := vNorm64(sa); n > math.Ldexp(1, 55) {
+			inRange = false // the sum of squares must stay finite as well
+		}
+		if vIsZero(sa) || !inRange {
 			continue
 		}
 		psa, err := cs.Preprocess(sa)
